@@ -143,7 +143,10 @@ fn selftest_determinism(args: &[String]) -> i32 {
         .and_then(|s| s.parse().ok())
         .unwrap_or(20_000);
     let mut bad = 0;
+    let requested = runs;
     for e in engines() {
+        // an engine whose single run is a whole sweep (C13, C14) gets proportionally fewer runs
+        let runs = requested.min((e.runs(Tier::Quick) / 4).max(100));
         for seed in [1u64, 2, 0xdead_beef] {
             let a = runner::run_check(
                 e,
